@@ -1546,9 +1546,10 @@ func (is *iterScanner) Scan(dest ...interface{}) error {
 	// slices of dest
 	i := 0
 	var err error
-	for _, col := range iter.meta.columns {
+	for c, col := range iter.meta.columns {
 		var n int
-		n, err = scanColumn(is.cols[i], col, dest[i:])
+		// a tuple column takes several destinations but is still one column
+		n, err = scanColumn(is.cols[c], col, dest[i:])
 		if err != nil {
 			break
 		}
